@@ -35,6 +35,8 @@ CLAIMED = {
          "guards/local spans are released LIFO on their own thread (the property's only precondition); release build (debug assertions off)."),
  "C09": ("7 C09", "Seeded search with ring capacities 2..16, collector stalls, bursts of spans/roots/cancels/finishes during the episode, threads exiting with a full ring, scopes with 10240+k local spans and 4096+k nested scopes; oracle: calls never wait or panic, delivered is a subset of recorded (right trace/parent, no duplicate) and recorded minus the logged omissions is delivered, present attachments are on the right span, white-box signal monitor over the consumption log (finish/cancel commands of a thread are consumed in issue order and none disappears while the thread lives), cancel still suppresses the trace, traces started after the episode are complete, limit overflows keep exactly the recorded part.",
          "ring-full events are taken from the hook log (exact: single producer); the capacity knob is the cfg-gated spsc shim."),
+ "C15": ("7 C15", "Differential check on a fixed corpus of 20 twin pairs (plain / #[trace]) compiled against /repo/fastrace-macro on every run: sync, async, generic, lifetimes, impl methods, async-trait impl methods; returning values, early return, ?, panics, by-value/by-ref/mut arguments; name / short_name / enter_on_poll / properties with format strings and escaped braces; nested traced calls. Seeded per run: arguments, local parent (none / no-op / unsampled / multi-parent), poll schedule incl. drop before completion, collector placement and thread interleaving. Oracle: equal return values, side-effect logs (incl. drop order of body locals) and panic payloads; exactly one span per call (one per poll for enter_on_poll) with the configured name / identifier / func_path as the body reports it, properties equal to format! applied by the harness, parent = the caller's local parent in every sampled trace of it; nothing recorded without a local parent.",
+         "the macro runs at compile time, so 'all signatures and bodies' is sampled by the fixed corpus only: the claim is 'holds on the corpus under all explored arguments and schedules', weaker than the property's program quantifier (DESIGN §7 C15)."),
 }
 NOT_APPLICABLE = {
  "C12": "Pure function of one string / one SpanContext: no thread, clock, I/O, fault or interleaving for a simulator to control; input generation alone would be property-based testing, a different technique family (DESIGN §8).",
